@@ -14,8 +14,13 @@ N == Len(R)
 VARIABLES c, i
 vars == <<c, i>>
 
+\* a configuration the replacement requests on a matched atom: the mark refers to the sequence `seq` (the replacement's own neighbour
+\* order, then the neighbours kept from the structure); the product may drop it (centre not stereogenic) but not invert it
+Inversions(q) == Cardinality({ <<a, b>> \in (1..Len(q)) \X (1..Len(q)) : a < b /\ q[a] > q[b] })
+RequestedParity(x) == ((1 - x.raw) + Inversions(x.seq)) % 2      \* (a missing fourth neighbour - the implicit hydrogen - is last in every order)
 ApplyV(r) ==
   ApplyVerdict(r.S, r.T, r.mu, r.P)
+  \cup If(\E k \in 1..Len(r.req) : r.req[k].n \in Nums(r.P) /\ AtomAt(r.P, r.req[k].n).p \notin {2, RequestedParity(r.req[k])}, "requested-configuration-inverted")
   \cup If(r.nprod # Len(r.images), "number-of-products-is-not-the-number-of-matches")
   \cup If(r.filtered = 1 /\ \E a, b \in 1..Len(r.images) : a < b /\ Rng(r.images[a]) = Rng(r.images[b]), "two-products-for-one-set-of-matched-atoms")
   \cup If(r.valid = 1 /\ r.bad = 0 /\ ~LeavesOpenValence(r.S, r.T, r.mu) /\ r.rt # 1 /\ InDomainC01(r.Pdom), "product-is-not-the-molecule-its-own-text-denotes")
